@@ -23,6 +23,7 @@ type c20World struct {
 	run      func(n int) // n workload steps on c (the tape records them)
 	resume   func()      // called after the original chain began its next block
 	counters func(c *sim.Chain, ctx sdk.Context) map[string]uint64
+	liveIDs  func(c *sim.Chain, ctx sdk.Context) map[string]uint64 // highest live record id per counter name
 }
 
 func c20Generic(t *testing.T, rec *ev.Rec, w c20World, queries []c20Query, contSteps int) {
@@ -70,6 +71,20 @@ func c20Generic(t *testing.T, rec *ev.Rec, w c20World, queries []c20Query, contS
 			rec.Count("counters_compared", 1)
 			if b[name] != x {
 				rec.Violate("C20/counter/"+name, fmt.Sprintf("id counter is %d on the original chain and %d after the round trip", x, b[name]), map[string]interface{}{"universe": w.name})
+			}
+		}
+		// a restored counter below the id of a record that is still live makes the next new record overwrite it: a
+		// sharper law than counter equality, with its own label
+		if w.liveIDs != nil {
+			for name, hi := range w.liveIDs(imp, imp.App.BaseApp.NewContext(true, imp.Header)) {
+				rec.Eval(1)
+				rec.Count("counters_compared_with_highest_live_id", 1)
+				if hi > 0 && hi < a[name] {
+					rec.Count("exports_with_closed_newest_record:"+name, 1)
+				}
+				if b[name] < hi {
+					rec.Violate("C20/counter/"+name+"/below-a-live-id", fmt.Sprintf("restored id counter is %d but a record with id %d is live in the imported state: the next new record overwrites it (original counter %d)", b[name], hi, a[name]), map[string]interface{}{"universe": w.name})
+				}
 			}
 		}
 	}
@@ -174,7 +189,7 @@ func c20LiqLend(t *testing.T, rec *ev.Rec, round int, queries []c20Query) {
 			counters: func(c *sim.Chain, ctx sdk.Context) map[string]uint64 {
 				k := c.App.LendKeeper
 				return map[string]uint64{"lend/lend-id": k.GetUserLendIDCounter(ctx), "lend/borrow-id": k.GetUserBorrowIDCounter(ctx), "lend/pool-id": k.GetPoolID(ctx), "lend/pair-id": k.GetLendPairID(ctx)}
-			}}, queries, ev.Pick(150, 500))
+			}, liveIDs: c20LendLiveIDs}, queries, ev.Pick(150, 500))
 		e.c.Close()
 	}
 	// ---- lend universe with the liquidation sweep: lend-initiated locked vaults and running auctions in the exported state
@@ -208,7 +223,7 @@ func c20LiqLend(t *testing.T, rec *ev.Rec, round int, queries []c20Query) {
 				k := c.App.LendKeeper
 				return map[string]uint64{"lend/lend-id": k.GetUserLendIDCounter(ctx), "lend/borrow-id": k.GetUserBorrowIDCounter(ctx),
 					"liquidationsV2/locked-vault-id": c.App.NewliqKeeper.GetLockedVaultID(ctx), "auctionsV2/auction-id": c.App.NewaucKeeper.GetAuctionID(ctx)}
-			}}, queries, ev.Pick(150, 500))
+			}, liveIDs: c20LendLiveIDs}, queries, ev.Pick(150, 500))
 		e.c.Close()
 	}
 	// ---- rewards universe: gauges mid-way (plain, master/child, swap-fee), epoch clocks, farmers with queued and active
@@ -321,4 +336,20 @@ func c20FarmPrelude(rec *ev.Rec, w *liqWorld) {
 			rec.Count("farmers_active_and_queued_in_several_pools_at_export", 1)
 		}
 	}
+}
+
+// c20LendLiveIDs returns the highest lend / borrow position id that is live in the chain's state.
+func c20LendLiveIDs(c *sim.Chain, ctx sdk.Context) map[string]uint64 {
+	out := map[string]uint64{"lend/lend-id": 0, "lend/borrow-id": 0}
+	for _, l := range c.App.LendKeeper.GetAllLend(ctx) {
+		if l.ID > out["lend/lend-id"] {
+			out["lend/lend-id"] = l.ID
+		}
+	}
+	for _, b := range c.App.LendKeeper.GetAllBorrow(ctx) {
+		if b.ID > out["lend/borrow-id"] {
+			out["lend/borrow-id"] = b.ID
+		}
+	}
+	return out
 }
